@@ -89,6 +89,11 @@ pub struct PayModel {
     /// declined, and a declined hash must stay as unbacked as one that was never proposed
     #[serde(default)]
     pub declined: bool,
+    /// start from a state in which the keysend is approved and an incoming HTLC of the full
+    /// amount for the same hash is locked into both current commitments of channel 1 (the node
+    /// forwards and pays at once)
+    #[serde(default)]
+    pub incoming_prefix: bool,
 }
 
 pub fn pc_content(pc: PC) -> Content {
@@ -218,7 +223,7 @@ impl Model for PayModel {
     }
 
     fn name(&self) -> String {
-        format!("payflow(ops<={},contents={:?},k={}{}{}{}{})", self.max_ops, self.contents, self.k, if self.strict { ",enforce_balance" } else { "" }, if self.monitors { ",monitors" } else { "" }, if self.holder_letters { "" } else { ",cp-side-only" }, if self.locked_prefix { ",first-part-locked-in" } else { "" }) + if self.declined { ",approval-declined-by-velocity" } else { "" }
+        format!("payflow(ops<={},contents={:?},k={}{}{}{}{})", self.max_ops, self.contents, self.k, if self.strict { ",enforce_balance" } else { "" }, if self.monitors { ",monitors" } else { "" }, if self.holder_letters { "" } else { ",cp-side-only" }, if self.locked_prefix { ",first-part-locked-in" } else { "" }) + if self.declined { ",approval-declined-by-velocity" } else { "" } + if self.incoming_prefix { ",incoming-locked-in" } else { "" }
     }
 
     fn init(&self) -> PState {
@@ -253,6 +258,15 @@ impl Model for PayModel {
                 assert!(!s.dead, "prefix step {:?} failed", op);
             }
             assert!(s.ghost.chans[&1].cur_holder == Some(PC::Oh) && s.ghost.chans[&1].cur_cp == Some(PC::Oh), "prefix did not lock the first part in: {:?}", s.ghost.chans[&1]);
+            s.nops = 0;
+        }
+        if self.incoming_prefix {
+            let mut sink = vec![];
+            for op in [Op::Approve, Op::Validate(1, PC::I1), Op::Revoke(1), Op::SignCp(1, PC::I1), Op::CpRevoke(1)] {
+                self.apply(&mut s, &op, false, &mut sink);
+                assert!(!s.dead, "prefix step {:?} failed", op);
+            }
+            assert!(s.ghost.chans[&1].cur_holder == Some(PC::I1) && s.ghost.chans[&1].cur_cp == Some(PC::I1), "prefix did not lock the incoming HTLC in: {:?}", s.ghost.chans[&1]);
             s.nops = 0;
         }
         s
@@ -453,17 +467,19 @@ pub struct PayRun {
 pub fn explore(tier: Tier, monitors: bool, wall_s: f64) -> PayRun {
     let models_cfg: Vec<PayModel> = match (tier, monitors) {
         (Tier::Quick, false) => vec![
-            PayModel { max_ops: 4, contents: vec![PC::E, PC::Oh, PC::O1, PC::O2, PC::I1], k: 2, monitors, strict: false, holder_letters: true, locked_prefix: false, declined: false },
-            PayModel { max_ops: 6, contents: vec![PC::Oh, PC::O1], k: 3, monitors, strict: false, holder_letters: false, locked_prefix: false, declined: false },
-            PayModel { max_ops: 3, contents: vec![PC::E, PC::Oh, PC::O1, PC::O1x2], k: 3, monitors, strict: false, holder_letters: true, locked_prefix: true, declined: false },
-            PayModel { max_ops: 3, contents: vec![PC::E, PC::Oh, PC::O1, PC::O2], k: 2, monitors, strict: false, holder_letters: true, locked_prefix: false, declined: true },
+            PayModel { max_ops: 4, contents: vec![PC::E, PC::Oh, PC::O1, PC::O2, PC::I1], k: 2, monitors, strict: false, holder_letters: true, locked_prefix: false, declined: false, incoming_prefix: false },
+            PayModel { max_ops: 6, contents: vec![PC::Oh, PC::O1], k: 3, monitors, strict: false, holder_letters: false, locked_prefix: false, declined: false, incoming_prefix: false },
+            PayModel { max_ops: 3, contents: vec![PC::E, PC::Oh, PC::O1, PC::O1x2], k: 3, monitors, strict: false, holder_letters: true, locked_prefix: true, declined: false, incoming_prefix: false },
+            PayModel { max_ops: 3, contents: vec![PC::E, PC::Oh, PC::O1, PC::O2], k: 2, monitors, strict: false, holder_letters: true, locked_prefix: false, declined: true, incoming_prefix: false },
+            PayModel { max_ops: 3, contents: vec![PC::E, PC::O1, PC::Ox, PC::I1], k: 3, monitors, strict: false, holder_letters: true, locked_prefix: false, declined: false, incoming_prefix: true },
         ],
-        (Tier::Quick, true) => vec![PayModel { max_ops: 3, contents: vec![PC::E, PC::O1, PC::O2, PC::Ox], k: 2, monitors, strict: false, holder_letters: true, locked_prefix: false, declined: false }],
+        (Tier::Quick, true) => vec![PayModel { max_ops: 3, contents: vec![PC::E, PC::O1, PC::O2, PC::Ox], k: 2, monitors, strict: false, holder_letters: true, locked_prefix: false, declined: false, incoming_prefix: false }],
         (Tier::Thorough, _) => vec![
-            PayModel { max_ops: 6, contents: vec![PC::E, PC::Oh, PC::O1, PC::Ox, PC::O2, PC::I1, PC::I2O2, PC::O1x2], k: 2, monitors, strict: false, holder_letters: true, locked_prefix: false, declined: false },
-            PayModel { max_ops: 5, contents: vec![PC::E, PC::Oh, PC::O1, PC::O2, PC::I1], k: 2, monitors, strict: true, holder_letters: true, locked_prefix: false, declined: false },
-            PayModel { max_ops: 5, contents: vec![PC::E, PC::Oh, PC::O1, PC::Ox, PC::O1x2, PC::I1], k: 3, monitors, strict: false, holder_letters: true, locked_prefix: true, declined: false },
-            PayModel { max_ops: 5, contents: vec![PC::E, PC::Oh, PC::O1, PC::O2, PC::I1], k: 2, monitors, strict: false, holder_letters: true, locked_prefix: false, declined: true },
+            PayModel { max_ops: 6, contents: vec![PC::E, PC::Oh, PC::O1, PC::Ox, PC::O2, PC::I1, PC::I2O2, PC::O1x2], k: 2, monitors, strict: false, holder_letters: true, locked_prefix: false, declined: false, incoming_prefix: false },
+            PayModel { max_ops: 5, contents: vec![PC::E, PC::Oh, PC::O1, PC::O2, PC::I1], k: 2, monitors, strict: true, holder_letters: true, locked_prefix: false, declined: false, incoming_prefix: false },
+            PayModel { max_ops: 5, contents: vec![PC::E, PC::Oh, PC::O1, PC::Ox, PC::O1x2, PC::I1], k: 3, monitors, strict: false, holder_letters: true, locked_prefix: true, declined: false, incoming_prefix: false },
+            PayModel { max_ops: 5, contents: vec![PC::E, PC::Oh, PC::O1, PC::O2, PC::I1], k: 2, monitors, strict: false, holder_letters: true, locked_prefix: false, declined: true, incoming_prefix: false },
+            PayModel { max_ops: 5, contents: vec![PC::E, PC::Oh, PC::O1, PC::Ox, PC::O1x2, PC::I1], k: 3, monitors, strict: false, holder_letters: true, locked_prefix: false, declined: false, incoming_prefix: true },
         ],
     };
     let mut stats = BfsStats { closed: true, ..Default::default() };
